@@ -537,7 +537,7 @@ func (kb *KeyBlock) GetBytes() ([]byte, error) {
 }
 
 func (kb *KeyBlock) GetAttributes() []Attribute {
-	if kb.KeyValue.Plain == nil {
+	if kb.KeyValue == nil || kb.KeyValue.Plain == nil {
 		return nil
 	}
 	return kb.KeyValue.Plain.Attribute
